@@ -312,6 +312,10 @@ func (vm *simVM) spawn(inc *incarnation, uuid string, now time.Time) *simProc {
 		sig := "two-live-processes"
 		if s.staleUnlock[uuid] {
 			sig = "fixStaleLocks-gave-up-while-process-alive"
+		} else if o.byInc != inc.n && !inc.listed[string(o.vm.in.id)] {
+			// the new dispatcher has not yet received a single crunch-run --list answer from the
+			// instance on which the previous dispatcher's process is still alive
+			sig = "restarted-dispatcher-starts-container-before-probing-the-worker-that-still-runs-it"
 		}
 		s.viol("C14", "two-live-crunch-run-processes", sig,
 			"container %s: crunch-run pid %d started on %s by dispatcher %d while pid %d on %s (started %s ago by dispatcher %d, running=%v, instance terminating=%v) is still alive; history: %s; api: %s",
@@ -399,6 +403,9 @@ func (x *simExecutor) Execute(env map[string]string, cmd string, stdin io.Reader
 		return lat, r
 	}, func(res any) {
 		r := res.(execRes)
+		if r.err == nil && strings.HasSuffix(cmd, " --list") {
+			x.inc.listed[string(x.in.id)] = true
+		}
 		if strings.Contains(r.stdout, "broken\n") && strings.HasSuffix(cmd, " --list") {
 			if _, ok := x.inc.brokenSeen[string(x.in.id)]; !ok {
 				x.inc.brokenSeen[string(x.in.id)] = time.Now()
